@@ -163,6 +163,7 @@ type Frame struct {
 	binds     []Val // free variable bindings
 	watcher   *watcher // frame runs a goroutine that was waiting on a channel
 	onReturn  func(cfg *Config) // run when the frame is popped (normally or by a panic)
+	targs     map[string]types.Type // type arguments of an inlined generic instantiation, by type parameter name
 }
 
 func (f *Frame) clone() *Frame {
@@ -562,7 +563,16 @@ func (x *Exec) zeroOf(t types.Type) Val {
 }
 
 func (x *Exec) zeroTerm(t types.Type) Term {
-	if _, ok := t.(*types.TypeParam); ok {
+	if tp, ok := t.(*types.TypeParam); ok {
+		// inside an inlined instantiation of a generic function the type
+		// argument is known: its zero value is concrete (nil for pointers...)
+		if x.curCfg != nil && len(x.curCfg.frames) > 0 {
+			if ta, ok := x.curCfg.top().targs[tp.Obj().Name()]; ok {
+				if _, again := ta.(*types.TypeParam); !again && x.sortOf(ta) == SInt {
+					return x.zeroTerm(ta)
+				}
+			}
+		}
 		return x.d.Const("zero!T", SInt)
 	}
 	s := x.sortOf(t)
